@@ -7,8 +7,36 @@ theorem it cites and is proved by it.
 -/
 import Uniflow.Props.C04Tie
 import Uniflow.Props.C01Tie
+import Uniflow.Model.Lockset
 
 theorem C05.add_hook_facts : type_of% C04.add_hook_facts := C04.add_hook_facts
 theorem C05.add_hook_as_modelled : type_of% C04.add_hook_as_modelled := C04.add_hook_as_modelled
 theorem C05.exit_flip_as_modelled : type_of% C04.exit_flip_as_modelled := C04.exit_flip_as_modelled
 theorem C05.close_loops_as_modelled : type_of% C01.close_loops_as_modelled := C01.close_loops_as_modelled
+
+/-! ### call-outs of `process.Local` happen outside every critical section of `l.mu`
+
+`Generated/Locks.lean` is regenerated from the source by the extractor on every run; `calls` lists
+every call a method of a locked type makes, with the own mutexes held at the call. The model
+(`Uniflow.Local`) runs user hooks, the lazy initialiser, `AddExitHook` and the hook-side `Delete`
+with `l.mu` released (`C05.hooks_run_unlocked`); this is the source-level counterpart. The same facts
+feed C20's `callouts_as_reviewed` (which flags a new call-out under a lock for any type); it is
+re-stated here for `process.Local` so that a change like the pinned `Store` (5790134) or seeded change
+c05e (hook called under `l.mu.RLock()`) breaks a theorem of THIS property. -/
+
+open Uniflow.Generated.Locks in
+/-- No method of `process.Local` makes any call – to a store hook, the initialiser, `AddExitHook`,
+its own `Delete` – while holding `l.mu` (read or write). -/
+theorem C05.local_calls_out_unlocked :
+    (calls.filter (fun c => c.typ == "process.Local")).all (fun c => c.held.isEmpty && c.heldExcl.isEmpty) = true := by
+  decide
+
+open Uniflow.Generated.Locks in
+/-- … and the table does see those calls (the statement above is not vacuous): the hook call of
+`AddStoreHook`, the fetched hooks of `Store` and `LoadOrStore`, the initialiser, `AddExitHook`. -/
+theorem C05.local_calls_out_present :
+    [("AddStoreHook", "dyn:process.StoreHook.Store"), ("Store", "process.StoreHooks.Store"),
+     ("LoadOrStore", "process.StoreHooks.Store"), ("LoadOrStore", "process.lazy.Do"),
+     ("Store", "process.Process.AddExitHook"), ("LoadOrStore", "process.Process.AddExitHook")].all
+      (fun mc => calls.any (fun c => c.typ == "process.Local" && c.meth == mc.1 && c.callee == mc.2)) = true := by
+  decide
